@@ -221,7 +221,7 @@ func checkC11(c *Ctx) {
 			continue
 		}
 		nStatus, nDemote := 0, 0
-		for g := range m.staticReach(cbRoots[0], false) {
+		for _, g := range sortedFns(m.staticReach(cbRoots[0], false)) {
 			eachInstr(g, func(in ssa.Instruction) {
 				// demotion sites (whether the claim still stands is decided inside the
 				// demotion wrapper, under the lock: C08-R2/R3)
@@ -284,7 +284,7 @@ func checkC11(c *Ctx) {
 		rn := shortFn(r)
 		// stops the timer: a (*time.Timer).Stop reachable through static calls
 		stops := false
-		for g := range m.staticReach(r, false) {
+		for _, g := range sortedFns(m.staticReach(r, false)) {
 			eachInstr(g, func(in ssa.Instruction) {
 				if _, ok := isCallTo(valueOf(in), "(*time.Timer).Stop"); ok {
 					stops = true
@@ -313,7 +313,7 @@ func checkC11(c *Ctx) {
 		verify = dedupFns(verify)
 		for _, vf := range verify {
 			// find the function that actually holds the Get (the closure calls it)
-			for g := range m.staticReach(vf, false) {
+			for _, g := range sortedFns(m.staticReach(vf, false)) {
 				hasGet := false
 				eachInstr(g, func(in ssa.Instruction) {
 					if _, ok := m.isKVCall(valueOf(in), "Get"); ok {
@@ -337,7 +337,7 @@ func checkC11(c *Ctx) {
 func (c *Ctx) verifyFunctionShape(rule string, g *ssa.Function) {
 	m := c.M
 	vfn := m.ValidateFn()
-	for _, b := range g.Blocks {
+	for _, b := range liveBlocks(g) {
 		if b == g.Recover {
 			continue
 		}
